@@ -298,7 +298,9 @@ namespace AIToolbox::POMDP {
                 const auto & b = node.belief;
                 const auto domIt = findBestDeltaDominated(b, it->values, delta_, std::begin(lbVList), end, unwrap);
 
-                if (it != domIt) {
+                // findBestDeltaDominated returns end when nothing
+                // delta-dominates us here: we keep the witness.
+                if (domIt != end && it != domIt) {
                     rmWit(bId, *it);
                     addWit(bId, *domIt);
                 }
